@@ -592,6 +592,10 @@ def impl(c, ctx):
                 try:
                     a0 = build(t["recipe"], "a0")
                     out["a0"] = dict(entries=entries_of(a0.GetQuantity()), unit=a0.GetUnit(), repr=repr(a0), str=str(a0))
+                except (ZeroDivisionError, OverflowError):
+                    # the library computes the quantity of a result without values on dummy amounts (1.0), and
+                    # 1 atm is 0 Pa(g): a failed value computation, C10's business, no strings to compare
+                    out["a0"] = dict(skip=True)
                 except Exception as e:
                     out["a0"] = dict(err=err_kind(e), detail=repr(e)[:200])
             return dict(ok=out)
@@ -650,12 +654,14 @@ def agree(c, io, mo, ctx):
             return "Scalar getters differ from its quantity's"
     if "a0" in r:
         a0 = r["a0"]
-        if "err" in a0:
+        if "skip" in a0:
+            ctx.notes["a0_numeric_failures_skipped"] = ctx.notes.get("a0_numeric_failures_skipped", 0) + 1
+        elif "err" in a0:
             return "the expression on Arrays without values raised: %s" % a0.get("detail")
-        if a0["entries"] != r["entries"] or a0["unit"] != _u(m["unit"]):
+        elif a0["entries"] != r["entries"] or a0["unit"] != _u(m["unit"]):
             return "the expression on Arrays without values gives entries %s / unit %r, on Scalars %s / model unit %r" % (
                 a0["entries"], a0["unit"], r["entries"], _u(m["unit"]))
-        if not a0["repr"].endswith(_u(m["array_repr_tail"])) or not a0["str"].endswith(_u(m["suffix"])):
+        elif not a0["repr"].endswith(_u(m["array_repr_tail"])) or not a0["str"].endswith(_u(m["suffix"])):
             return "repr/str of the Array without values: %r / %r" % (a0["repr"], a0["str"])
     if r["arepr"] != "Array(" + _u(m["array_repr_head"]) + "[1.0, 2.5]" + _u(m["array_repr_tail"]):
         return "repr(Array): real %r" % r["arepr"]
@@ -805,8 +811,13 @@ def oracle(c, ctx):
             a = Array.CreateWithQuantity(q, [1.0, 2.5])
             if not repr(a).endswith(", %s)" % unit) or not str(a).endswith(" [%s]" % unit):
                 return dict(inp, clause="repr/str(Array) show the unit", got=[repr(a), str(a)], unit=unit)
+            a0 = None
             if t["kind"] == "expr":
-                a0 = build(t["recipe"], "a0")
+                try:
+                    a0 = build(t["recipe"], "a0")
+                except (ZeroDivisionError, OverflowError):
+                    a0 = None   # a failed value computation on the library's dummy amounts, not a string matter
+            if a0 is not None:
                 want_u = [[u_, e_] for _c, u_, e_ in ent]
                 got_u = [[u_, e_] for _c, u_, e_ in entries_of(a0.GetQuantity())]
                 if all(is_atomic(u_) for u_, _e in want_u) and (
